@@ -5,6 +5,9 @@ mod c01;
 mod c02;
 mod c03;
 mod c04;
+mod c05;
+mod c06;
+mod e2;
 mod c19;
 mod e1;
 mod e3;
@@ -16,6 +19,13 @@ static GLOBAL: alloc::Counting = alloc::Counting;
 use zvcore::evidence::parse_tier;
 
 fn main() {
+    // glibc's per-thread arenas otherwise grow and shrink a page at a time under the
+    // explorers' allocate/free churn (hundreds of thousands of mprotect calls)
+    unsafe {
+        libc::mallopt(libc::M_TRIM_THRESHOLD, 1 << 30);
+        libc::mallopt(libc::M_TOP_PAD, 64 << 20);
+        libc::mallopt(libc::M_MMAP_THRESHOLD, 1 << 30);
+    }
     let args: Vec<String> = std::env::args().collect();
     if args.len() < 2 {
         eprintln!("usage: zv <ID> [--tier quick|thorough] [--replay FILE]");
@@ -33,6 +43,8 @@ fn main() {
         "c03-sweep" => c03::child_sweep(&args[2], args[3].parse().unwrap(), &args[4]),
         "c03-e3" => c03::child_e3(&args[2], &args[3]),
         "C04" => c04::run(tier, replay),
+        "C05" => c05::run(tier, replay),
+        "C06" => c06::run(tier, replay),
         "C19" => c19::run(tier, replay),
         other => {
             eprintln!("unknown property id {}", other);
